@@ -363,6 +363,7 @@ def run(ch, ctx, fault=None):
             d["image"] = img
             d["size0"] = img.size
             d["desc"] = desc
+            d["data"], d["kw"] = data, kw
             if animated:
                 pil.suspended += 1
                 tp = Image.open(io.BytesIO(data))
@@ -486,6 +487,23 @@ def run(ch, ctx, fault=None):
                     finally:
                         pil.suspended -= 1
                     ctx.probe("frame_equals_direct_format")
+                    check(frame == ref, "iterated_frame_differs_from_direct_format",
+                          {"frame": j, "pass": itd["pass"], "spec": itd["spec"],
+                           "iterator": itd["desc"], "got": frame[:160],
+                           "expected": ref[:160]}, "next")
+                elif "+A" not in itd["spec"] and im["fmt"] == "GIF":
+                    # for GIF the reference is a freshly opened copy taken to that frame:
+                    # "formatting that frame directly"
+                    pil.suspended += 1
+                    try:
+                        fresh = im["cls"](Image.open(io.BytesIO(im["data"])), **im["kw"])
+                        fresh.size = im["image"].size
+                        fresh.seek(j)
+                        ref = format(fresh, itd["spec"])
+                        fresh.close()
+                    finally:
+                        pil.suspended -= 1
+                    ctx.probe("gif_frame_equals_fresh_direct_format")
                     check(frame == ref, "iterated_frame_differs_from_direct_format",
                           {"frame": j, "pass": itd["pass"], "spec": itd["spec"],
                            "iterator": itd["desc"], "got": frame[:160],
